@@ -1,6 +1,8 @@
 // odesys.h -- a tiny SimTK::System whose equations are supplied by the harness.
 //
-//   qdot = u,   udot = fu(t,q,u,z),   zdot = fz(t,q,u,z)        (nq == nu, nz >= 0)
+//   qdot = u,   udot = fu(t,q,u,z;d),   zdot = fz(t,q,u,z;d)        (nq == nu, nz >= 0)
+//   d = nd discrete Real parameters (state variables invalidating Stage::Dynamics; only event
+//   handlers change them)
 //
 // No constraints, no prescribed motion.  Event handlers / reporters are added with the
 // ordinary System::addEventHandler()/addEventReporter() (they live in the default
@@ -19,16 +21,17 @@ namespace odesys {
 using namespace SimTK;
 
 // udot and zdot are pre-sized (nq, nz); fill them.
-typedef std::function<void(Real t, const Vector& q, const Vector& u, const Vector& z,
+typedef std::function<void(Real t, const Vector& q, const Vector& u, const Vector& z, const Vector& d,
                            Vector& udot, Vector& zdot)> RhsFn;
 
 class OdeSystem;
 class OdeGuts : public System::Guts {
     friend class OdeSystem;
     SubsystemIndex subsys;
-    int nq = 0, nz = 0;
+    int nq = 0, nz = 0, nd = 0;
     RhsFn rhs;
     mutable QIndex q0; mutable UIndex u0; mutable ZIndex z0;
+    mutable Array_<DiscreteVariableIndex> dix;
 public:
     OdeGuts() : Guts() {}
     OdeGuts* cloneImpl() const override { return new OdeGuts(*this); }
@@ -37,6 +40,8 @@ public:
     int realizeTopologyImpl(State& s) const override {
         if (nq) { q0 = s.allocateQ(subsys, Vector(nq, Real(0))); u0 = s.allocateU(subsys, Vector(nq, Real(0))); }
         if (nz) z0 = s.allocateZ(subsys, Vector(nz, Real(0)));
+        dix.clear();
+        for (int i = 0; i < nd; ++i) dix.push_back(s.allocateDiscreteVariable(subsys, Stage::Dynamics, new Value<Real>(0)));
         return 0;
     }
     int realizeVelocityImpl(const State& s) const override {
@@ -48,7 +53,9 @@ public:
         Vector q(nq), u(nq), z(nz);
         if (nq) { q = s.getQ(subsys); u = s.getU(subsys); }
         if (nz) z = s.getZ(subsys);
-        rhs(s.getTime(), q, u, z, udot, zdot);
+        Vector d(nd);
+        for (int i = 0; i < nd; ++i) d[i] = Value<Real>::downcast(s.getDiscreteVariable(subsys, dix[i])).get();
+        rhs(s.getTime(), q, u, z, d, udot, zdot);
         if (nq) { s.updUDot(subsys) = udot; s.updQDotDot() = udot; }
         if (nz) s.updZDot(subsys) = zdot;
         return 0;
@@ -61,12 +68,12 @@ public:
 
 class OdeSystem : public System {
 public:
-    OdeSystem(int nq, int nz, RhsFn rhs) : System() {
+    OdeSystem(int nq, int nz, RhsFn rhs, int nd = 0) : System() {
         adoptSystemGuts(new OdeGuts());
         DefaultSystemSubsystem defsub(*this);
         OdeGuts& g = updGuts();
         g.subsys = defsub.getMySubsystemIndex();
-        g.nq = nq; g.nz = nz; g.rhs = rhs;
+        g.nq = nq; g.nz = nz; g.nd = nd; g.rhs = rhs;
         setHasTimeAdvancedEvents(false);
     }
     const OdeGuts& getGuts() const { return dynamic_cast<const OdeGuts&>(getSystemGuts()); }
@@ -86,6 +93,10 @@ public:
     Real q(const State& s, int i) const { return s.getQ(subsys())[i]; }
     Real u(const State& s, int i) const { return s.getU(subsys())[i]; }
     Real z(const State& s, int i) const { return s.getZ(subsys())[i]; }
+    Real d(const State& s, int i) const { return Value<Real>::downcast(s.getDiscreteVariable(subsys(), getGuts().dix[i])).get(); }
+    void setD(State& s, int i, Real v) const { Value<Real>::updDowncast(s.updDiscreteVariable(subsys(), getGuts().dix[i])).upd() = v; }
+    void setQ(State& s, int i, Real v) const { s.updQ(subsys())[i] = v; }
+    void setU(State& s, int i, Real v) const { s.updU(subsys())[i] = v; }
 };
 
 }  // namespace odesys
